@@ -54,7 +54,8 @@ SCENARIOS = {
                    _ap([1, 1], aff='web', prio=5, limits={'rack': 1}, alloc='y'),
                    _ap([1, 1], aff='web', prio=5, limits={'rack': 1}),
                    _ap([1, 1], aff='db', prio=7, limits={'server': 1, 'pod': 1, 'cell': 2}),
-                   _ap([2, 2], aff='low', prio=3)],
+                   _ap([2, 2], aff='low', prio=3),
+                   _ap([1, 1], aff='cache', prio=9, limits={'cell': 1})],
         groups={}, apps=['a1', 'a2', 'a3', 'a4', 'a5', 'a6']),
     # identities: grow, shrink, delete, blacklist, schedule-once
     'identity': dict(
@@ -85,11 +86,13 @@ SCENARIOS['queue'] = dict(
     server_init={'s1': 1, 's2': 1, 's3': 2},
     allocs={'t': _al(reserved=(1, 1)), 't/x': _al(rank=90, adj=10, reserved=(2, 1)),
             't/y': _al(maxutil=1, reserved=(1, 1)), 'u': _al(maxutil=2, reserved=(1, 1), adj=20),
+            't/z': _al(maxutil=0, reserved=(1, 1)),
             'u/v/w': _al(rank=80, reserved=(0, 0))},
     aprofiles=[_ap([1, 1], prio=5, alloc='t/x'), _ap([1, 1], prio=1, alloc='t/x'),
                _ap([1, 1], prio=0, alloc='t/x'), _ap([1, 1], prio=3, alloc='t/y'),
                _ap([1, 1], prio=2, alloc='u'), _ap([2, 1], prio=7, alloc='t'),
-               _ap([1, 1], prio=0, alloc='u/v/w'), _ap([1, 2], prio=4, alloc='u/v/w')],
+               _ap([1, 1], prio=0, alloc='u/v/w'), _ap([1, 2], prio=4, alloc='u/v/w'),
+               _ap([1, 1], prio=6, alloc='t/z')],
     groups={}, apps=['a1', 'a2', 'a3', 'a4', 'a5', 'a6'])
 
 
@@ -126,6 +129,17 @@ SCENARIOS['twins'] = dict(
     aprofiles=[_ap([1, 1]), _ap([1, 1], alloc='x@pB'), _ap([1, 1], alloc='t/y', prio=3),
                _ap([1, 1], alloc='t/y@pB', prio=2), _ap([2, 1], traits=['t1'])],
     groups={}, apps=['a1', 'a2', 'a3', 'a4'])
+
+
+# incomparable unplaceable demands of one shape ahead of a probe that fits
+SCENARIOS['tracker'] = dict(
+    dims=2, racks={'r1': ['s1', 's2']}, pods={},
+    sprofiles=[_sp([2, 2]), _sp([3, 2])],
+    server_init={'s1': 1, 's2': 1},
+    allocs={'x': _al()},
+    aprofiles=[_ap([3, 1], prio=9), _ap([1, 3], prio=8), _ap([2, 2]), _ap([1, 1]), _ap([4, 1], prio=7),
+               _ap([2, 1], prio=2)],
+    groups={}, apps=['a1', 'a2', 'a3', 'a4', 'a5', 'a6'])
 
 
 def probeify(hist, rng, scn):
@@ -169,7 +183,7 @@ def gen_queue_scn(rng, name):
     for p in paths:
         allocs[p] = _al(rank=rng.choice([80, 90, 100, 100]), adj=rng.choice([0, 0, 10, 30]),
                         reserved=(rng.randrange(0, 4), rng.randrange(0, 4)),
-                        maxutil=rng.choice([None, None, 1, 2, 3]))
+                        maxutil=rng.choice([None, None, 0, 1, 2, 3]))
     profiles = []
     for _ in range(8):
         profiles.append(_ap([rng.randrange(0, 3), rng.randrange(1, 3)], prio=rng.choice([0, 0, 1, 2, 5, 9]),
@@ -196,7 +210,10 @@ def norm_scn(scn):
         sprofiles=[dict(cap=p['cap'], label=p['label'], traits=sorted(p['traits']), vu=p['vu'])
                    for p in scn['sprofiles']],
         sparent=sparent,
-        allocs={n: dict(label=a['label'], traits=sorted(a['traits'])) for n, a in scn['allocs'].items()})
+        allocs={n: dict(label=a['label'], traits=sorted(a['traits']), rank=a['rank'], adj=a['adj'],
+                        reserved=list(a['reserved']),
+                        maxutil=-1 if a['maxutil'] is None else a['maxutil'])
+                for n, a in scn['allocs'].items()})
 
 
 # ---------------------------------------------------------------------------
@@ -226,10 +243,7 @@ def scn_constants(scn):
     n = norm_scn(scn)
     aps = [dict(p, traits=set(p['traits'])) for p in n['aprofiles']]
     sps = [dict(p, traits=set(p['traits'])) for p in n['sprofiles']]
-    allocs = {k: dict(label=a['label'], traits=set(a['traits']), rank=scn['allocs'][k]['rank'],
-                      adj=scn['allocs'][k]['adj'], reserved=scn['allocs'][k]['reserved'],
-                      maxutil=-1 if scn['allocs'][k]['maxutil'] is None else scn['allocs'][k]['maxutil'])
-              for k, a in n['allocs'].items()}
+    allocs = {k: dict(a, traits=set(a['traits'])) for k, a in n['allocs'].items()}
     bparent = {'cell': ''}
     blevel = {'cell': 'cell'}
     for pod, racks in (scn.get('pods') or {}).items():
@@ -356,7 +370,7 @@ def record(scn_name, histories):
     traces = []
     for k, h in enumerate(histories):
         lines = sched_l1.replay(scn, h)
-        traces.append(dict(tid='%s:%d' % (scn_name, k), scn=hdr, lines=lines, history=h))
+        traces.append(dict(tid='%s:%d' % (scn_name, k), kind='l1', scn=hdr, lines=lines, history=h))
     return traces
 
 
@@ -365,7 +379,7 @@ def validate(traces, timeout=1200, cfg='SchedTrace.cfg'):
     try:
         path = os.path.join(work, 'batch.json')
         with open(path, 'w') as f:
-            json.dump(dict(traces=[dict(tid=t['tid'], scn=t['scn'], lines=t['lines'])
+            json.dump(dict(traces=[dict(tid=t['tid'], kind=t.get('kind', 'l1'), scn=t['scn'], lines=t['lines'])
                                    for t in traces]), f)
         return tlc.validate(SPEC_DIR, 'SchedTrace', cfg, path, timeout=timeout)
     finally:
